@@ -208,6 +208,17 @@ def _acquire_slot():
     return None
 
 
+def _mem_available_gb():
+    try:
+        with open('/proc/meminfo') as f:
+            for line in f:
+                if line.startswith('MemAvailable:'):
+                    return int(line.split()[1]) / 1048576.0
+    except (OSError, ValueError):
+        pass
+    return 1e9
+
+
 def _release_slot(f):
     if f is not None:
         try:
@@ -218,7 +229,17 @@ def _release_slot(f):
 
 def coq_run_files(named_texts, timeout=900):
     """named_texts: list of (name, text).  Runs coqc on each in parallel.
-    Returns list of (rc, output)."""
+    Returns list of (rc, output).  A coqc that was killed from outside (SIGKILL, e.g. by the
+    kernel's out-of-memory killer while other checks run on the same machine) is re-run once,
+    alone: that is a property of the machine's load, not of the case."""
+    results = _coq_run_files(named_texts, timeout)
+    for k, r in enumerate(results):
+        if r is not None and r[0] in (-9, 137):
+            results[k] = _coq_run_files([named_texts[k]], timeout)[0]
+    return results
+
+
+def _coq_run_files(named_texts, timeout=900):
     os.makedirs(CASES, exist_ok=True)
     procs = []
     results = [None] * len(named_texts)
@@ -234,6 +255,8 @@ def coq_run_files(named_texts, timeout=900):
     t_end = time.time() + timeout
     while idx < len(paths) or running:
         while idx < len(paths) and len(running) < NPROC:
+            if running and _mem_available_gb() < 8.0:
+                break               # leave head-room: start more only when memory allows
             slot = _acquire_slot()
             if slot is None:
                 if not running and time.time() > t_end:
